@@ -28,22 +28,24 @@ theorem slot_validate (s : Bytes) (b : Bool) (h : Header) (hs : SlotIs s (some (
   obtain ⟨⟨rest, rfl⟩, _, hlen⟩ := hs
   exact ⟨rest, validateLeader_frame _ _ b false (encHeader_pos h) hlen⟩
 
-/-- reading entries: the frames that carry the current bit, up to the first one that does not -/
-theorem readEntries_frames (cur : Bool) (fs : List (Rotation.Frame Entry)) (hok : ∀ f ∈ fs, EntryOK f.entry) :
+/-- reading entries: the frames that carry the current bit, up to the first one that does not; a tail that is
+    no frame (nothing, or a torn frame) ends the reading too -/
+theorem readEntries_frames_tail (cur : Bool) (fs : List (Rotation.Frame Entry)) (hok : ∀ f ∈ fs, EntryOK f.entry)
+    (tail : Bytes) (ht : validateLeader tail = none) :
     ∀ fuel, fs.length < fuel →
-      ∃ n, readEntries cur fuel (framesBytes fs) = .ok ((takeBit cur fs).map (fun f => (f.entry, f.partial_)), n)
+      ∃ n, readEntries cur fuel (framesBytes fs ++ tail) = .ok ((takeBit cur fs).map (fun f => (f.entry, f.partial_)), n)
         ∧ n = (framesBytes (takeBit cur fs)).length := by
   induction fs with
   | nil =>
     intro fuel hf
     obtain ⟨fuel, rfl⟩ : ∃ x, fuel = x + 1 := ⟨fuel - 1, by omega⟩
-    exact ⟨0, by simp [framesBytes, readEntries, validateLeader_nil, takeBit], by simp [framesBytes, takeBit]⟩
+    exact ⟨0, by simp [framesBytes, readEntries, ht, takeBit], by simp [framesBytes, takeBit]⟩
   | cons f rest ih =>
     intro fuel hf
     obtain ⟨fuel, rfl⟩ : ∃ x, fuel = x + 1 := ⟨fuel - 1, by omega⟩
     have hw := hok f (by simp)
     have hpos : 0 < (encEntry f.entry).length := by simp [encEntry]
-    have hreg : framesBytes (f :: rest) = frame (encEntry f.entry) f.bit f.partial_ ++ framesBytes rest := by
+    have hreg : framesBytes (f :: rest) ++ tail = frame (encEntry f.entry) f.bit f.partial_ ++ (framesBytes rest ++ tail) := by
       simp [framesBytes]
     rw [hreg]
     simp only [readEntries]
@@ -54,7 +56,7 @@ theorem readEntries_frames (cur : Bool) (fs : List (Rotation.Frame Entry)) (hok 
       simp only []
       obtain ⟨n, hn, hnl⟩ := ih (fun g hg => hok g (by simp [hg])) fuel (by simp at hf; omega)
       rw [hn]
-      refine ⟨n + ((frame (encEntry f.entry) f.bit f.partial_ ++ framesBytes rest).length - (framesBytes rest).length), ?_, ?_⟩
+      refine ⟨n + ((frame (encEntry f.entry) f.bit f.partial_ ++ (framesBytes rest ++ tail)).length - (framesBytes rest ++ tail).length), ?_, ?_⟩
       · simp [takeBit, hb]
       · have hb' : (f.bit == cur) = true := by simpa using hb
         simp only [takeBit, hb', ite_true, framesBytes, List.map_cons, List.flatten_cons, List.length_append] at hnl ⊢
@@ -63,6 +65,14 @@ theorem readEntries_frames (cur : Bool) (fs : List (Rotation.Frame Entry)) (hok 
       refine ⟨0, ?_, ?_⟩
       · simp [hb, takeBit, hne]
       · simp [takeBit, hne, framesBytes]
+
+theorem readEntries_frames (cur : Bool) (fs : List (Rotation.Frame Entry)) (hok : ∀ f ∈ fs, EntryOK f.entry) :
+    ∀ fuel, fs.length < fuel →
+      ∃ n, readEntries cur fuel (framesBytes fs) = .ok ((takeBit cur fs).map (fun f => (f.entry, f.partial_)), n)
+        ∧ n = (framesBytes (takeBit cur fs)).length := by
+  intro fuel hf
+  have := readEntries_frames_tail cur fs hok [] validateLeader_nil fuel hf
+  simpa using this
 
 theorem frames_length_le (fs : List (Rotation.Frame Entry)) : fs.length ≤ (framesBytes fs).length := by
   induction fs with
@@ -91,31 +101,42 @@ theorem dropTP_map (l : List (Rotation.Frame Entry)) :
       | cons x xs => rw [h2] at ih; simp only [List.map_cons] at ih ⊢; rw [ih]
 
 /-- what `Oplog::open` cuts off: everything behind the entries that carry the current header bit -/
+def truncOpsT (cur : Bool) (fs : List (Rotation.Frame Entry)) (extra : Nat) : List SOp :=
+  if (framesBytes fs).length + extra > (framesBytes (takeBit cur fs)).length
+  then [SOp.trunc .oplog (Spec.entriesOffset + (framesBytes (takeBit cur fs)).length)] else []
+
 def truncOps (cur : Bool) (fs : List (Rotation.Frame Entry)) : List SOp :=
   if (framesBytes fs).length > (framesBytes (takeBit cur fs)).length
   then [SOp.trunc .oplog (Spec.entriesOffset + (framesBytes (takeBit cur fs)).length)] else []
 
-theorem truncOps_store (cur : Bool) (fs : List (Rotation.Frame Entry)) : ∀ op ∈ truncOps cur fs, op.store = .oplog := by
+theorem truncOpsT_zero (cur : Bool) (fs : List (Rotation.Frame Entry)) : truncOpsT cur fs 0 = truncOps cur fs := by
+  simp [truncOpsT, truncOps]
+
+theorem truncOpsT_store (cur : Bool) (fs : List (Rotation.Frame Entry)) (extra : Nat) : ∀ op ∈ truncOpsT cur fs extra, op.store = .oplog := by
   intro op hop
-  unfold truncOps at hop
+  unfold truncOpsT at hop
   split at hop
   · simp at hop; subst hop; rfl
   · cases hop
+
+theorem truncOps_store (cur : Bool) (fs : List (Rotation.Frame Entry)) : ∀ op ∈ truncOps cur fs, op.store = .oplog := by
+  rw [← truncOpsT_zero]; exact truncOpsT_store cur fs 0
 
 theorem truncOps_all (b : Bool) (es : List Entry) : truncOps b (es.map (mk b)) = [] := by
   simp [truncOps, Rotation.takeBit_all]
 
 /-- **`Oplog::open` on the bytes is the reader's rule on the abstraction.** -/
-theorem openLog_abs (s0 s1 : Bytes) (c0 c1 : Option (Bool × Header)) (fs : List (Rotation.Frame Entry))
+theorem openLog_abs_tail (s0 s1 : Bytes) (c0 c1 : Option (Bool × Header)) (fs : List (Rotation.Frame Entry))
     (l0 : s0.length = Spec.headerSize) (l1 : s1.length = Spec.headerSize)
     (h0 : SlotIs s0 c0) (h1 : SlotIs s1 c1) (hok : ∀ f ∈ fs, EntryOK f.entry)
     (bits : Bits) (h : Header) (es : List Entry)
-    (hopen : (⟨c0, c1, fs⟩ : Rotation.Log Header Entry).open = some (bits, h, es)) :
-    ∃ ost, openLog none (s0 ++ s1 ++ framesBytes fs) = .ok ⟨ost, h, truncOps bits.cur fs, es⟩
+    (hopen : (⟨c0, c1, fs⟩ : Rotation.Log Header Entry).open = some (bits, h, es))
+    (tail : Bytes) (htail : validateLeader tail = none) :
+    ∃ ost, openLog none (s0 ++ s1 ++ (framesBytes fs ++ tail)) = .ok ⟨ost, h, truncOpsT bits.cur fs tail.length, es⟩
       ∧ ost.bits = (bits.b0, bits.b1) ∧ ost.entriesByteLength = (framesBytes (takeBit bits.cur fs)).length := by
   have hs : Spec.headerSize = 4096 := rfl
   have hE : Spec.entriesOffset = 8192 := rfl
-  generalize hR : framesBytes fs = Rg
+  generalize hR : framesBytes fs ++ tail = Rg
   have t0 : (s0 ++ s1 ++ Rg).take Spec.headerSize = s0 := by
     rw [List.append_assoc, List.take_append_of_le_length (by omega)]
     simp [List.take_of_length_le, l0]
@@ -134,7 +155,7 @@ theorem openLog_abs (s0 s1 : Bytes) (c0 c1 : Option (Bool × Header)) (fs : List
   have c2' : ¬ (s0 ++ s1 ++ Rg).length < 2 * Spec.headerSize := by rw [hlen, hs]; omega
   -- the entries part, for a given current bit
   have hentries : ∀ (st : Oplog.State) (hh : Header), es = seen st.currentBit fs → st.entriesByteLength = 0 →
-      ∃ ost, readLog ⟨st, hh, [], []⟩ (s0 ++ s1 ++ Rg) = .ok ⟨ost, hh, truncOps st.currentBit fs, es⟩
+      ∃ ost, readLog ⟨st, hh, [], []⟩ (s0 ++ s1 ++ Rg) = .ok ⟨ost, hh, truncOpsT st.currentBit fs tail.length, es⟩
         ∧ ost.bits = st.bits ∧ ost.entriesByteLength = (framesBytes (takeBit st.currentBit fs)).length := by
     intro st hh hes hz
     unfold readLog
@@ -142,28 +163,31 @@ theorem openLog_abs (s0 s1 : Bytes) (c0 c1 : Option (Bool × Header)) (fs : List
     · simp only [hgt, ite_true, dE]
       have hflen : fs.length < (s0 ++ s1 ++ Rg).length := by
         have := frames_length_le fs
-        rw [hlen, ← hR]; omega
-      obtain ⟨n, hn, hnl⟩ := readEntries_frames st.currentBit fs hok (s0 ++ s1 ++ framesBytes fs).length (by rw [hR]; exact hflen)
+        rw [hlen, ← hR]; simp only [List.length_append]; omega
+      obtain ⟨n, hn, hnl⟩ := readEntries_frames_tail st.currentBit fs hok tail htail (s0 ++ s1 ++ (framesBytes fs ++ tail)).length (by rw [hR]; exact hflen)
       rw [← hR, hn]
       subst hnl
       refine ⟨{ st with entriesLength := ((takeBit st.currentBit fs).map fun f => (f.entry, f.partial_)).length, entriesByteLength := (framesBytes (takeBit st.currentBit fs)).length }, ?_, rfl, rfl⟩
-      have hcond : ((s0 ++ s1 ++ framesBytes fs).length > Spec.entriesOffset + (framesBytes (takeBit st.currentBit fs)).length)
-          ↔ ((framesBytes fs).length > (framesBytes (takeBit st.currentBit fs)).length) := by
-        rw [hR, hlen, hE, ← hR]; omega
-      simp only [dropTP_map, hes, List.nil_append, truncOps, hcond]
+      have hcond : ((s0 ++ s1 ++ (framesBytes fs ++ tail)).length > Spec.entriesOffset + (framesBytes (takeBit st.currentBit fs)).length)
+          ↔ ((framesBytes fs).length + tail.length > (framesBytes (takeBit st.currentBit fs)).length) := by
+        rw [hR, hlen, hE, ← hR]; simp only [List.length_append]; omega
+      simp only [dropTP_map, hes, List.nil_append, truncOpsT, hcond]
       rfl
     · have hR0 : Rg.length = 0 := by rw [hlen, hE] at hgt; omega
+      have hR0' : (framesBytes fs).length = 0 ∧ tail.length = 0 := by
+        rw [← hR] at hR0; simp only [List.length_append] at hR0; omega
       have hfs : fs = [] := by
         cases fs with
         | nil => rfl
         | cons f rest =>
           exfalso
           have := frames_length_le (f :: rest)
-          rw [hR, hR0] at this
+          rw [hR0'.1] at this
           simp at this
       refine ⟨st, ?_, rfl, ?_⟩
       · simp only [hgt, ite_false]
-        rw [hes, hfs]; rfl
+        rw [hes, hfs]
+        simp [truncOpsT, takeBit, framesBytes, hR0'.2, seen, Rotation.dropTrailingPartial]
       · rw [hz, hfs]; simp [takeBit, framesBytes]
   unfold openLog
   simp only [c1', c2', ite_false, t0, d0, t1]
@@ -210,6 +234,16 @@ theorem openLog_abs (s0 s1 : Bytes) (c0 c1 : Option (Bool × Header)) (fs : List
         simp only [decode_slot hh1 h1.2.1]
         obtain ⟨ost, e1, e2, e3⟩ := hentries ⟨(b0, b1), 0, 0⟩ hh1 hes.symm rfl
         exact ⟨ost, by rw [← hbits]; exact e1, by rw [e2, ← hbits], by rw [e3, ← hbits]; rfl⟩
+
+theorem openLog_abs (s0 s1 : Bytes) (c0 c1 : Option (Bool × Header)) (fs : List (Rotation.Frame Entry))
+    (l0 : s0.length = Spec.headerSize) (l1 : s1.length = Spec.headerSize)
+    (h0 : SlotIs s0 c0) (h1 : SlotIs s1 c1) (hok : ∀ f ∈ fs, EntryOK f.entry)
+    (bits : Bits) (h : Header) (es : List Entry)
+    (hopen : (⟨c0, c1, fs⟩ : Rotation.Log Header Entry).open = some (bits, h, es)) :
+    ∃ ost, openLog none (s0 ++ s1 ++ framesBytes fs) = .ok ⟨ost, h, truncOps bits.cur fs, es⟩
+      ∧ ost.bits = (bits.b0, bits.b1) ∧ ost.entriesByteLength = (framesBytes (takeBit bits.cur fs)).length := by
+  have := openLog_abs_tail s0 s1 c0 c1 fs l0 l1 h0 h1 hok bits h es hopen [] validateLeader_nil
+  simpa [truncOpsT_zero] using this
 
 /-! ### the invariant on the bytes -/
 
@@ -417,6 +451,82 @@ theorem opinv_flush (st : Oplog.State) (f : File) (hf : Header) (es : List Entry
     · simp [Oplog.flush, framesBytes]
     · intro e he; cases he
 
+/-- the header write of a flush torn after `t` bytes, under the assumption that the checksum rejects the
+    half-written slot: the invariant still holds — same in-memory state, same header, same entries -/
+theorem opinv_torn_header (st : Oplog.State) (f : File) (hf : Header) (es : List Entry) (h' : Header) (t : Nat)
+    (h : OpInv st f.toList hf es) (hok : HeaderOK h') (off : Nat) (bs : Bytes)
+    (hop : (Oplog.flush st h' false).2.head? = some (.write .oplog off bs))
+    (hcrc : validateLeader (((f.write off (bs.take t)).toList.drop off).take Spec.headerSize) = none) :
+    OpInv st (f.write off (bs.take t)).toList hf es := by
+  have hsz := opinv_size st f hf es h
+  obtain ⟨s0, s1, l, hb, l0, l1, h0, h1, inv, hebl, hoks⟩ := h
+  have hS : Spec.headerSize = 4096 := rfl
+  have hE : Spec.entriesOffset = 8192 := rfl
+  have hinvT := Rotation.tear_inv inv
+  generalize hfr : frame (encHeader h') (Spec.nextSlot st.bits.1 st.bits.2).2 false = fr at hop
+  generalize hbuf : fr ++ List.replicate (Spec.leaderSize + 2 * (encHeader h').length - fr.length) 0 = buf at hop
+  have hbl : buf.length = Spec.leaderSize + 2 * (encHeader h').length := by
+    rw [← hbuf, ← hfr]
+    simp only [List.length_append, List.length_replicate, frame_length, Spec.leaderSize]; omega
+  have hfit : buf.length ≤ 4096 := by rw [hbl]; exact hok.2
+  cases hsec : (Spec.nextSlot st.bits.1 st.bits.2).1 with
+  | true =>
+    simp only [Oplog.flush, Bool.false_eq_true, ite_false, Oplog.insertHeader, hsec, ite_true, hfr, hbuf, List.head?_cons,
+      Option.some.injEq, SOp.write.injEq, true_and] at hop
+    obtain ⟨rfl, rfl⟩ := hop
+    generalize hq : buf.take t = q at hcrc ⊢
+    have hql : q.length ≤ 4096 := by rw [← hq, List.length_take]; omega
+    have hfile : (f.write Spec.headerSize q).toList = s0 ++ (q ++ s1.drop q.length) ++ framesBytes l.entries := by
+      rw [File.toList_write f Spec.headerSize q (by rw [hsz, hE, hS]; omega), hb]
+      have t0 : (s0 ++ s1 ++ framesBytes l.entries).take Spec.headerSize = s0 := by
+        rw [List.append_assoc, List.take_append_of_le_length (by omega)]
+        simp [List.take_of_length_le, l0]
+      have d0 : (s0 ++ s1 ++ framesBytes l.entries).drop (Spec.headerSize + q.length)
+          = s1.drop q.length ++ framesBytes l.entries := by
+        rw [List.append_assoc, ← List.drop_drop, List.drop_append_of_le_length (by omega)]
+        simp only [List.drop_of_length_le (Nat.le_of_eq l0), List.nil_append]
+        rw [List.drop_append_of_le_length (by omega)]
+      rw [t0, d0]
+      simp only [List.append_assoc]
+    have hslotlen : (q ++ s1.drop q.length).length = Spec.headerSize := by
+      simp only [List.length_append, List.length_drop, l1]; omega
+    have hslot : ((f.write Spec.headerSize q).toList.drop Spec.headerSize).take Spec.headerSize = q ++ s1.drop q.length := by
+      rw [hfile, List.append_assoc, List.drop_append_of_le_length (by omega)]
+      simp only [List.drop_of_length_le (Nat.le_of_eq l0), List.nil_append]
+      rw [List.take_append_of_le_length (by omega)]
+      exact List.take_of_length_le (by omega)
+    rw [hslot] at hcrc
+    refine ⟨s0, q ++ s1.drop q.length, l.tearNext ⟨st.bits.1, st.bits.2⟩, ?_, l0, hslotlen, ?_, ?_, hinvT, ?_, hoks⟩
+    · rw [hfile]; simp [Rotation.Log.tearNext, hsec]
+    · simpa [Rotation.Log.tearNext, hsec] using h0
+    · simpa [Rotation.Log.tearNext, hsec, SlotIs] using hcrc
+    · simpa [Rotation.Log.tearNext, hsec] using hebl
+  | false =>
+    simp only [Oplog.flush, Bool.false_eq_true, ite_false, Oplog.insertHeader, hsec, hfr, hbuf, List.head?_cons,
+      Option.some.injEq, SOp.write.injEq, true_and] at hop
+    obtain ⟨rfl, rfl⟩ := hop
+    generalize hq : buf.take t = q at hcrc ⊢
+    have hql : q.length ≤ 4096 := by rw [← hq, List.length_take]; omega
+    have hfile : (f.write 0 q).toList = (q ++ s0.drop q.length) ++ s1 ++ framesBytes l.entries := by
+      rw [File.toList_write f 0 q (Nat.zero_le _), hb]
+      simp only [List.take_zero, List.nil_append, Nat.zero_add]
+      have d0 : (s0 ++ s1 ++ framesBytes l.entries).drop q.length
+          = s0.drop q.length ++ s1 ++ framesBytes l.entries := by
+        rw [List.append_assoc, List.drop_append_of_le_length (by omega), List.append_assoc]
+      rw [d0]
+      simp only [List.append_assoc]
+    have hslotlen : (q ++ s0.drop q.length).length = Spec.headerSize := by
+      simp only [List.length_append, List.length_drop, l0]; omega
+    have hslot : ((f.write 0 q).toList.drop 0).take Spec.headerSize = q ++ s0.drop q.length := by
+      rw [hfile, List.drop_zero, List.append_assoc, List.take_append_of_le_length (by omega)]
+      exact List.take_of_length_le (by omega)
+    rw [hslot] at hcrc
+    refine ⟨q ++ s0.drop q.length, s1, l.tearNext ⟨st.bits.1, st.bits.2⟩, ?_, hslotlen, l1, ?_, ?_, hinvT, ?_, hoks⟩
+    · rw [hfile]; simp [Rotation.Log.tearNext, hsec]
+    · simpa [Rotation.Log.tearNext, hsec, SlotIs] using hcrc
+    · simpa [Rotation.Log.tearNext, hsec] using h1
+    · simpa [Rotation.Log.tearNext, hsec] using hebl
+
 theorem next_cur_ne (b : Bits) : b.next.cur ≠ b.cur := by
   obtain ⟨b0, b1⟩ := b
   cases b0 <;> cases b1 <;> decide
@@ -542,21 +652,85 @@ theorem opinv_flush_mid (st : Oplog.State) (f : File) (hf : Header) (es : List E
     exact mid_open (buf ++ s0.drop buf.length) s1 ⟨some ((Spec.nextSlot st.bits.1 st.bits.2).2, h'), l.s1, l.entries⟩ _
       ⟨st.bits.1, st.bits.2⟩ h' es hfile hso.1 l1 hso.2 h1 inv.ents hoks b' hopen hcur hinv2
 
-/-- the oplog store of a crash image: the protocol invariant holds for some in-memory state, or a flush was
-    cut between its header write and its truncate -/
+/-- opening a store that satisfies the invariant up to a tail that is no frame (nothing, or the prefix of an
+    entry whose write was torn): the tail is cut off and the invariant holds for what is left -/
+theorem opinv_open_tail (st : Oplog.State) (f : File) (base tail : Bytes) (hf : Header) (es : List Entry)
+    (h : OpInv st base hf es) (hb : f.toList = base ++ tail) (ht : validateLeader tail = none) :
+    ∃ ost ops, openLog none f.toList = .ok ⟨ost, hf, ops, es⟩ ∧ (∀ op ∈ ops, op.store = .oplog)
+      ∧ OpInv ost (ops.foldl (fun g op => op.onFile g) f).toList hf es := by
+  have hS : Spec.headerSize = 4096 := rfl
+  have hE : Spec.entriesOffset = 8192 := rfl
+  have h' := h
+  obtain ⟨s0, s1, l, hbase, l0, l1, h0, h1, inv, hebl, hok⟩ := h
+  obtain ⟨b', hopen, _, _⟩ := Rotation.open_of_inv inv
+  have hbits := open_bits_exact inv b' hf es hopen
+  have hfr : ∀ fr ∈ l.entries, EntryOK fr.entry := by
+    intro fr hfr
+    rw [inv.ents] at hfr
+    obtain ⟨e, he, rfl⟩ := List.mem_map.mp hfr
+    exact hok e he
+  have hents := inv.ents
+  obtain ⟨c0, c1, fs⟩ := l
+  simp only at hents hbase hfr
+  obtain ⟨ost, e1, e2, e3⟩ := openLog_abs_tail s0 s1 c0 c1 fs l0 l1 h0 h1 hfr b' hf es hopen tail ht
+  have htb : takeBit b'.cur fs = fs := by rw [hbits, hents, Rotation.takeBit_all]
+  have hbytes : f.toList = s0 ++ s1 ++ (framesBytes fs ++ tail) := by rw [hb, hbase]; simp [List.append_assoc]
+  refine ⟨ost, truncOpsT b'.cur fs tail.length, by rw [hbytes]; exact e1, truncOpsT_store _ _ _, ?_⟩
+  have hfinal : ((truncOpsT b'.cur fs tail.length).foldl (fun g op => op.onFile g) f).toList = base := by
+    unfold truncOpsT
+    rw [htb]
+    by_cases hpos : tail.length > 0
+    · have hc : (framesBytes fs).length + tail.length > (framesBytes fs).length := by omega
+      simp only [hc, ite_true, List.foldl_cons, List.foldl_nil, SOp.onFile]
+      have hblen : base.length = Spec.entriesOffset + (framesBytes fs).length := by
+        rw [hbase]; simp only [List.length_append, l0, l1, hS, hE]
+      have hfsz : f.size = base.length + tail.length := by rw [← File.toList_length, hb]; simp
+      rw [File.toList_truncate_le _ _ (by omega), hb, ← hblen]
+      simp
+    · have : tail = [] := List.eq_nil_of_length_eq_zero (by omega)
+      have hc : ¬ ((framesBytes fs).length + tail.length > (framesBytes fs).length) := by omega
+      simp only [hc, ite_false, List.foldl_nil]
+      rw [hb, this, List.append_nil]
+  rw [hfinal]
+  exact opinv_congr st ost base hf es h' (by rw [e2, hbits]) (by rw [e3, htb, hebl])
+
+/-- the oplog store of a crash image: the protocol invariant holds for some in-memory state up to a tail that
+    is no frame (nothing, or the prefix of an entry whose write was torn), or a flush was cut between its
+    header write and its truncate -/
 def OpImage (f : File) (hf : Header) (es : List Entry) : Prop :=
-  (∃ st, OpInv st f.toList hf es)
+  (∃ st base tail, OpInv st base hf es ∧ f.toList = base ++ tail ∧ validateLeader tail = none)
     ∨ (∃ st f0 hf0 es0, OpInv st f0.toList hf0 es0 ∧ HeaderOK hf ∧ es = []
         ∧ f = ((Oplog.flush st hf false).2.take 1).foldl (fun g op => op.onFile g) f0)
+
+theorem opimage_of_inv (st : Oplog.State) (f : File) (hf : Header) (es : List Entry) (h : OpInv st f.toList hf es) : OpImage f hf es :=
+  Or.inl ⟨st, f.toList, [], h, by simp, validateLeader_nil⟩
+
+/-- the entry write torn after `t` bytes: the store is the old one followed by a strict prefix of a frame, which
+    is no frame (by its length field alone — no assumption on the checksum) -/
+theorem opimage_torn_entry (st : Oplog.State) (f : File) (hf : Header) (es : List Entry) (e : Entry) (t : Nat)
+    (h : OpInv st f.toList hf es) (he : EntryOK e) (ht : t < (frame (encEntry e) st.currentBit false).length) :
+    OpImage (f.write (Spec.entriesOffset + st.entriesByteLength) ((frame (encEntry e) st.currentBit false).take t)) hf es := by
+  have hsz := opinv_size st f hf es h
+  refine Or.inl ⟨st, f.toList, (frame (encEntry e) st.currentBit false).take t, h, ?_, ?_⟩
+  · rw [← hsz, File.toList_write f f.size _ (Nat.le_refl _)]
+    have e1 : f.toList.take f.size = f.toList := List.take_of_length_le (Nat.le_of_eq (File.toList_length f))
+    have e2 : f.toList.drop (f.size + ((frame (encEntry e) st.currentBit false).take t).length) = [] :=
+      List.drop_of_length_le (by rw [File.toList_length]; omega)
+    rw [e1, e2, List.append_nil]
+  · apply validateLeader_strict_prefix (encEntry e) st.currentBit false he.2 _ ((frame (encEntry e) st.currentBit false).drop t)
+    · intro hnil
+      have := congrArg List.length hnil
+      simp only [List.length_drop, List.length_nil] at this
+      omega
+    · exact List.take_append_drop t _
 
 /-- opening a crash image: the header and entries it stands for, and the invariant for the store as
     `Oplog::open` leaves it -/
 theorem opimage_open (f : File) (hf : Header) (es : List Entry) (h : OpImage f hf es) :
     ∃ ost ops, openLog none f.toList = .ok ⟨ost, hf, ops, es⟩ ∧ (∀ op ∈ ops, op.store = .oplog)
       ∧ OpInv ost (ops.foldl (fun g op => op.onFile g) f).toList hf es := by
-  rcases h with ⟨st, hi⟩ | ⟨st, f0, hf0, es0, hi, hok, rfl, rfl⟩
-  · obtain ⟨ost, hlog, hb, he⟩ := opinv_open st _ hf es hi
-    exact ⟨ost, [], hlog, (fun op hop => by cases hop), opinv_congr st ost _ hf es hi hb he⟩
+  rcases h with ⟨st, base, tail, hi, hb, ht⟩ | ⟨st, f0, hf0, es0, hi, hok, rfl, rfl⟩
+  · exact opinv_open_tail st f base tail hf es hi hb ht
   · exact opinv_flush_mid st f0 hf0 es0 hf hi hok
 
 theorem leVal_zeros (k : Nat) : leVal (List.replicate k (0 : UInt8)) = 0 := by
